@@ -607,6 +607,7 @@ type c19Plan struct {
 	quiet    bool
 	verbose  int
 	slow     bool     // -timeout 1s -max_retry_delay 1s (as in the finding's reproduction) instead of the short ones
+	delayTok string   // if set: -timeout=250ms -max_retry_delay=<delayTok> (the boundary values of the retry delay: 0, 1ns, negative)
 	extra    []string // arguments for Go's flag package (F14 family)
 	fpkBad   bool
 	cfgClass map[string]string // field key -> class
@@ -984,7 +985,9 @@ func (w *c19World) build(p *c19Plan, idx int) {
 	if p.local {
 		args = append(args, "-test_local_getter")
 	}
-	if p.slow {
+	if p.delayTok != "" {
+		args = append(args, "-timeout=250ms", "-max_retry_delay="+p.delayTok)
+	} else if p.slow {
 		args = append(args, "-timeout=1s", "-max_retry_delay=1s")
 	} else {
 		args = append(args, "-timeout=250ms", "-max_retry_delay=100ms")
@@ -1104,7 +1107,7 @@ func (w *c19World) build(p *c19Plan, idx int) {
 
 	// ---- the oracle's expectation, from the property statement
 	p.oracle(w, msg, quoteFact, cfgPresent, cfgVals, flags, fRoots, rootsBad)
-	p.key = fmt.Sprintf("%s|%s|%s|%s|%s|%s|%v|%v|%v|%s|%s|%s|%v|%v|%s", p.cfgKind+p.cfgUnknown, p.shape, p.quote, p.format, p.in, c19Classes(p), p.cPaths, p.cBundles, p.fRoots, p.fCrl, p.fGc, p.extra, p.cCrl, p.cGc, fmt.Sprint(p.local))
+	p.key = fmt.Sprintf("%s|%s|%s|%s|%s|%s|%v|%v|%v|%s|%s|%s|%v|%v|%s", p.cfgKind+p.cfgUnknown, p.shape, p.quote, p.format, p.in, c19Classes(p), p.cPaths, p.cBundles, p.fRoots, p.fCrl, p.fGc, p.extra, p.cCrl, p.cGc, fmt.Sprint(p.local)+p.delayTok)
 }
 
 func c19Join(l []string) string {
@@ -1889,6 +1892,18 @@ func c19(r *hx.Run) {
 					p.slow = rep == 0 && quote == "s" && crl == "-"
 					add(p)
 				}
+			}
+		}
+	}
+	// the same with the retry delay at its boundary values: an unreachable service is a download failure whatever the delay
+	for _, tok := range []string{"0", "1ns", "-1s", "0s"} {
+		for _, crl := range []string{"-", "true"} {
+			for _, quote := range []string{"s", "g"} {
+				p := g.plan(g.base(lock("quote", quote, "f.crl", crl, "in", "file", "cfgKind", "none", "f.gc", "true")), "N:network")
+				p.local = false
+				p.delayTok = tok
+				p.tags = append(p.tags, "retry-delay:"+tok)
+				add(p)
 			}
 		}
 	}
